@@ -21,6 +21,7 @@ import (
 
 	"github.com/superfly/litefs"
 	"github.com/superfly/litefs/verifharness/core"
+	"github.com/superfly/litefs/verifharness/faults"
 )
 
 type call struct {
@@ -223,6 +224,8 @@ func main() {
 	byteRanges(rep)
 	releaseAll(rep)
 	sameOwner(rep, core.Pick(args, 150000, 1500000))
+	// failure paths (spec/Faults.tla): every call of the operation through the OS interface fails once
+	faults.Run(rep, args, faults.Select{Ops: []string{"halt", "import", "drop"}, Monitors: []string{"locks"}})
 	rep.Finish()
 }
 
